@@ -3,7 +3,13 @@ fn main() {
     // yarel heap is thread-local, so running everything on one big-stack thread is fine
     let child = std::thread::Builder::new()
         .stack_size(1 << 30)
-        .spawn(|| yverif::engine::main_with(yverif::props::all()))
+        .spawn(|| {
+            let args: Vec<String> = std::env::args().collect();
+            if args.get(1).map(|s| s.as_str()) == Some("dev") {
+                return yverif::dev::main(&args);
+            }
+            yverif::engine::main_with(yverif::props::all())
+        })
         .unwrap();
     let code = child.join().unwrap_or(2);
     std::process::exit(code);
